@@ -17,3 +17,10 @@ Definition c20_io_formats (has_toml : bool) (sub : bytes) (cli : list (key * opt
   | Ok c => Ok (andb (pyval_eqb (dgetd k_input_format c PNone) fin) (pyval_eqb (dgetd k_output_format c PNone) fout))
   | Err e => Err e
   end.
+(* is this the value of option opt in the model's Config of `bits <sub> <cli>`? *)
+Definition c20_option_is (has_toml : bool) (sub : bytes) (cli : list (key * option bytes)) (ftoml fjson : option dict)
+           (opt : key) (v : pyval) : result bool :=
+  match c20_main_config has_toml sub cli ftoml fjson with
+  | Ok c => Ok (pyval_eqb (dgetd opt c PNone) v)
+  | Err e => Err e
+  end.
